@@ -54,3 +54,13 @@ claim("C02",
       "Decides that no lossy operation lies on any byte path from the dot-decoded SMTP DATA block to Manager.Deliver, through Delivery.Reader into each store's sink, and back out through Source(), the REST/web source endpoints and POP3 streaming (token limit raised, dot-stuffing selected by HasPrefix, terminator on every exit); sizes are defined from the same bytes. An unknown consumer of the tracked bytes is undecided. Byte equality for every body and CR/LF normalisation details are not decided.",
       "Trusts go/ssa, the pass-through table (bytes.NewBuffer, Buffer.Bytes, bytes.NewReader, io.ReadAll, io.NopCloser, io.Copy), enmime.DecodeHeaders being read-only, and textproto dot-decoding.",
       "DESIGN.md section 4, C02")
+claim("C01",
+      "who-may-call over the VTA/CHA call graph, dominance, loop-nesting and value-flow checks of StoreManager.Deliver, typestate abstract interpretation of the SMTP session (shared with C03)",
+      "Decides the routing skeleton of a delivery for every path and call site: only StoreManager.Deliver calls a store's AddMessage and only the DATA-reading SMTP function calls Deliver, never on the error edge of the DATA read; one AddMessage site in one loop over the post-hook Mailboxes; without an extension answer the destinations are exactly recip.Mailbox of recipients whose ShouldStore() is true; 2xx only where Deliver returned nil; recipients are appended only in MAIL state and the envelope is empty at every read outside a transaction and after Deliver; stored metadata comes from the post-hook message. What the stores retain is decided by C02/C07, not here.",
+      "Trusts go/ssa and the call graph's over-approximation of interface dispatch; one Session per goroutine.",
+      "DESIGN.md section 4, C01")
+claim("C03",
+      "typestate abstract interpretation over go/ssa: interprocedural, disjunctive configurations (Session.state, recipients empty/non-empty, replies since last read) with branch refinement on fresh loads; structural reset/discard rules; dominance for atomicity",
+      "Decides for every command history (command strings are not tracked, so every arm is possible in every state) that MAIL is entered only from READY, recipients appended only in MAIL, DATA entered only from MAIL with recipients, Deliver called only in DATA; that the envelope reset is complete, that outside a transaction the recipient list is empty at every input read and that RSET/EHLO/HELO with an open envelope and the end of DATA pass the reset; that exactly one final reply precedes every input read; and that Deliver is unreachable from a failed DATA read. Liveness, callee panic-freedom and parser index bounds are not decided here.",
+      "Trusts go/ssa; reply classes are read from constant reply prefixes; one Session per goroutine.",
+      "DESIGN.md section 4, C03")
